@@ -21,6 +21,15 @@ T = {
          "pic_based_rate_est=1 excluded (documented lp dependence). Host has one socket."),
  "C06": ("metamorphic equality across use_cpu_flags levels (and an AVX-512 build in thorough)", "3/C06",
          "Each configuration is encoded with use_cpu_flags C-only/SSE2/SSSE3/SSE4.1/AVX2/ALL; output hashes must equal the C-only run.", "Limited to ISA levels of the host."),
+ "C12": ("documented-domain predicate (rule table with citations) vs svt_av1_enc_set_parameter on fresh handles", "3/C12",
+         "Single-field perturbations of the library defaults over boundaries, one past, 0, -1, type min/max and random values for every field whose range the API header and the user guide state consistently (70 fields), documented cross constraints, and documentation-free metamorphic checks (accepted set is an interval; unrelated fields never flip acceptance). ~1300 set_parameter calls per run.",
+         "Fields where header and guide contradict each other or give no range get no verdict (listed in evidence). The predicate is a transcription of the documents, each rule carries its citation."),
+ "C14": ("one process per API call sequence on the ASan build with begin/end markers around every call", "3/C14",
+         "Every NULL-handle / NULL-buffer probe of the 20 encoder and 11 decoder entry points in every protocol state where it is meaningful must return an error code; sequences with 1..5 rejected set_parameter calls followed by a valid one must configure, initialise and encode two pictures; random legal sequences must not contain a call that fails to return (other than the documented blocking wait).",
+         "Protocol-illegal orders (e.g. send_picture before init) are outside the statement's three clauses and are not generated. A call that does not return within the watchdog twice is reported as blocking."),
+ "C17": ("2-3 sessions in one process with staggered starts vs each session's solo output, on the ASan build", "3/C17",
+         "Encoder/encoder, encoder/decoder and decoder/decoder pairings with different presets, bit depths, asm levels, resolutions and thread counts; every session's packet/recon/picture hashes must equal its solo run; crashes are keyed by the site ASan names and memory errors that do not occur in solo runs are violations.",
+         "Interleavings of the instances are sampled by start offsets only."),
  "C13": ("taint monitor on svt_av1_enc_init_handle + metamorphic equality across prior contents", "3/C13",
          "Two fill patterns are pushed through init_handle and every field (table generated from the header of the current tree) must be overwritten; encodes on top of zero/0xFF/0xA5/random prior contents must be accepted and byte-identical.", "Padding bytes are not fields. Rate-control modes are left out of (b) because their output is not reproducible (C04 finding)."),
  "C18": ("header parser: base_q_idx of every coded frame vs configured bounds/offsets", "3/C18",
